@@ -179,6 +179,14 @@ fn main() {
     run_case(&run, &histogram_case::<Field128>(7, 3), &aggs, &proofs, &tapes);
     run_case(&run, &multihot_case::<Field128>(4, 2, 3), &aggs, &proofs, &tapes);
     run_case(&run, &l1_case::<Field128>(3, 2, 3), &aggs, &proofs, &tapes);
+    // joint-randomness types whose encoded measurement is long (>= 256 elements: any block-wise
+    // processing of the share expansion is exercised), measurements differing early and late
+    let long_aggs: Vec<u8> = vec![2, 3, 4];
+    run_case(&run, &histogram_case::<Field128>(700, 27), &long_aggs, &[1], &tapes[..tapes.len().min(4)]);
+    run_case(&run, &sumvec_case::<Field128>(255, 40, 18), &long_aggs, &[1], &tapes[..tapes.len().min(4)]);
+    run_case(&run, &multihot_case::<Field128>(300, 7, 20), &[2, 3], &[1], &tapes[..tapes.len().min(3)]);
+    run_case(&run, &l1_case::<Field128>(255, 33, 17), &[2, 3], &[1], &tapes[..tapes.len().min(3)]);
+    run_case(&run, &sum_case::<Field64>((1 << 63) + 1), &long_aggs, &[1], &tapes[..tapes.len().min(3)]);
     // small fields: every measurement, rejection sampling in the share expansion is frequent
     run_case(&run, &count_case::<FieldV17>(), &[2, 3], &[1], &tapes);
     run_case(&run, &sum_case::<FieldV17>(7), &[2, 3], &[1], &tapes);
